@@ -60,6 +60,7 @@ def plan(tier: str) -> list[dict]:
     return [
         {"stratum": "mem-1runner", "runs": 240 if q else 10000, "params": {"stack": "mem", "runners": 1}, "chunk": 15 if q else 250},
         {"stratum": "sqlite-1runner", "runs": 128 if q else 5000, "params": {"stack": "sqlite", "runners": 1}, "chunk": 8 if q else 125},
+        {"stratum": "sqlite-slow-client-batch", "runs": 96 if q else 4000, "params": {"stack": "sqlite", "runners": 1, "focus": "slow-batch"}, "chunk": 8 if q else 125},
         {"stratum": "sqlite-nrunners", "runs": 128 if q else 5000, "params": {"stack": "sqlite", "runners": 0}, "chunk": 8 if q else 125},
     ]
 
@@ -98,6 +99,14 @@ def run(seed: int, params: dict, replay: dict | None = None) -> dict:
         if subs and rng.random() < (0.5 if mode == "ARGUMENTS" else 0.15):
             kw = dict(subs[rng.randrange(len(subs))][1])  # an exact repeat: the same key in every mode, ARGUMENTS included
         subs.append((path, kw))
+    focus = params.get("focus")
+    if focus == "slow-batch":
+        # a same-key pair submitted as one group by a slow client, two slots: both are queued before either is indexed
+        mode = rng.choice(["ARGUMENTS", "KEYS", "KEYS"])
+        slots = 2
+        gp = rng.choice(["batch", "par"])
+        first = dict(subs[0][1], retry=0)
+        subs[0:2] = [(gp, first), (gp, dict(first) if mode == "ARGUMENTS" else dict(first, c=first["c"] + 100))]
     schedule = replay.get("schedule") if replay else None
     declared_keys_other_mode = False
     opts: dict[str, Any] = {"running_concurrency": CC[mode], "reroute_on_concurrency_control": reroute, "max_retries": 2}
@@ -135,7 +144,7 @@ def run(seed: int, params: dict, replay: dict | None = None) -> dict:
 
         # fault: a slow client - every effect it performs inside one submission is preceded by a short stall, so the
         # windows between "registered", "queued" and "indexed" are held open while the runners poll
-        slow_client = rng.random() < 0.3
+        slow_client = rng.random() < 0.3 or focus == "slow-batch"
         if slow_client:
             import sys as _sys
 
